@@ -4,9 +4,57 @@ Not registered in MANIFEST.json (there is no property id to report against); run
 stack: spec/Stack.tla (the stacking constructor), model-checked by MC_Stack (well-formedness, interpolation at the
        coordinates for stack order 1, a stack of copies reproduces the table, unstackable tables refused) and replayed on
        the real constructor by harness/stack_driver.cpp (exact attributes, exact values, FITS round trip of the result).
+
+sample: spec/Sample.tla (splinetable::sample, the Metropolis-Hastings sampler of detail/sample.h) as a machine with one action per
+       call the sampler makes to its collaborators; MC_Sample checks usable results, support preservation, call accounting and
+       detailed balance of the transition kernel in exact rationals (MC_Sample_seeded: the proposal ratio the wrong way round
+       must violate detailed balance); harness/sample_driver.cpp scripts the proposal distribution and the random number
+       generator (template parameters of sample()) and logs every call; Trace_Sample replays the logs (12 configurations: 1 and 2
+       sampled dimensions, identity / square / coordinate-dependent transform, derivative masks, extents inside and wider than
+       the knot range, 0..3 results, burn-in 0..2).
 """
 import os, shutil
 import vlib
+
+
+def _sample(ck, wd, tier, seed):
+    res = vlib.run_tlc("MC_Sample", "MC_Sample.cfg", tag="mcsample", timeout=900)
+    if res.rc != 0 or res.violated:
+        raise vlib.Infra("MC_Sample failed: %s\n%s" % (res.violated, res.out[-1500:]))
+    ck.add_tlc("MC_Sample", res)
+    bad = vlib.run_tlc("MC_Sample", "MC_Sample_seeded.cfg", tag="mcsamplebad", timeout=900)
+    # a constant-level invariant that is false is reported by TLC as "The invariant of X is equal to FALSE"
+    if bad.violated != "DetailedBalance" and "invariant of DetailedBalance is equal to FALSE" not in bad.out:
+        raise vlib.Infra("MC_Sample_seeded (proposal ratio inverted) did not violate DetailedBalance: the model check is vacuous\n" + bad.out[-1500:])
+    exe = vlib.build_driver("sample_driver", "asan")
+    total = 0
+    for cfg in range(12):
+        log = os.path.join(wd, "sample%d.ndjson" % cfg)
+        rc, so, err, _ = vlib.run_driver(exe, [str(cfg), str(60 if tier == "quick" else 600), str(seed), log], timeout=600)
+        if rc != 0:
+            ck.violation({"class": "sample-crash", "config": cfg}, {"what": "sample driver died", "rc": rc, "stderr": err[-2000:]})
+            continue
+        lines = [l for l in open(log)]
+        rep = []
+        r2 = vlib.run_tlc("Trace_Sample", "Trace_Sample.cfg", tag="trsample", workers=1, env={"TRACE": log}, sink=rep.append, timeout=1500)
+        if r2.violated == "TInv":
+            ck.violation({"class": "sample-state-violates-design-invariant", "config": cfg},
+                         {"what": "a state the real sampler passed through violates usable results / support preservation / call accounting", "tlc": r2.out[-2000:]})
+            continue
+        if r2.rc != 0 or not rep:
+            raise vlib.Infra("Trace_Sample failed:\n" + r2.out[-2000:])
+        if cfg == 0:
+            ck.add_tlc("Trace_Sample (configuration 0 of 12, %d records)" % len(lines), r2)
+        best = min(rep, key=lambda r: len(r["deviations"]))
+        for d in best["deviations"][:3]:
+            k = d["line"] - 1
+            while k > 0 and not lines[k].startswith('{"e":"start"'):
+                k -= 1
+            ck.violation({"class": "sample-" + d["kind"], "config": cfg, "call": d["e"], "model_at": d["pc"]},
+                         {"what": "splinetable::sample made a call that Sample.tla does not allow at this point, or ended with other results",
+                          "record": lines[d["line"] - 1].strip()[:300], "calls_of_this_run_so_far": [l.strip() for l in lines[k:d["line"]]][-12:]})
+        total += len(lines)
+    return total
 
 
 def run(pid, tier, seed, replay=None):
@@ -39,10 +87,12 @@ def run(pid, tier, seed, replay=None):
                 ck.violation({"class": "stack-refused"}, desc)
             elif r["diff"] or r["bad"] or not r["roundtrip"]:
                 ck.violation({"class": "stack-wrong-table"}, dict(desc, diff=r["diff"], bad=r["bad"], example=r["example"], roundtrip=r["roundtrip"]))
+        nsample = _sample(ck, wd, tier, seed)
+        ck.cov["sampler_calls_trace_validated"] = nsample
         ck.cov["traces_validated_against_impl"] = len(rows)
         ck.cov["evaluations"] = sum(r.get("points", 0) for r in rows)
         ck.cov["distinct_nontrivial"] = len(cases)
-        ck.cov["rule"] = "stacking constructor: 1-D/2-D base shapes x 2..4 tables x stack orders 0..3 x coordinate sets with an integer knot shift x {distinct, copies, mismatching} tables"
+        ck.cov["rule"] = "stacking constructor: 1-D/2-D base shapes x 2..4 tables x stack orders 0..3 x coordinate sets with an integer knot shift x {distinct, copies, mismatching} tables; sampler: 12 configurations x scripted runs, every call to the proposal distribution and the generator validated"
         return ck.finish(exhaustive=False)
     finally:
         if not os.environ.get("VERIF_KEEP"):
